@@ -212,9 +212,51 @@ def emit() -> str:
     if own_test not in cs_ifs:
         raise ValueError("check_send_frame_to_session_manager: test not recognised")
 
+    # --- WirelessAccessPoint.receive_frame: the same shape and acceptance test as RouterInterface
+    wap_cls = class_def(parse("simulator/network/hardware/nodes/network/wireless_router.py"), "WirelessAccessPoint")
+    wap_k = _rx_shape(wap_cls)
+    wap_tests = [ast.unparse(n.test) for n in ast.walk(find_method(wap_cls, "receive_frame")) if isinstance(n, ast.If)]
+    wap_acc = "frame.ethernet.dst_mac_addr == self.mac_address or frame.ethernet.dst_mac_addr == 'ff:ff:ff:ff:ff:ff'" in wap_tests
+    # --- AirSpace.transmit: every OTHER enabled interface on the sender's frequency receives the one frame object
+    air = find_method(class_def(parse("simulator/network/airspace.py"), "AirSpace"), "transmit")
+    air_loop = next((s for s in air.body if isinstance(s, ast.For)), None)
+    if air_loop is None or len(air_loop.body) != 1 or not isinstance(air_loop.body[0], ast.If):
+        raise ValueError("AirSpace.transmit: unexpected shape")
+    air_ok = (ast.unparse(air_loop.body[0].test) == "wireless_interface != sender_network_interface and wireless_interface.enabled"
+              and [ast.unparse(x) for x in air_loop.body[0].body] == ["wireless_interface.receive_frame(frame)"])
+    if not air_ok:
+        raise ValueError("AirSpace.transmit: unexpected receiver test")
+    # --- SessionManager.resolve_outbound_network_interface: enabled local network, else (not for the gateway itself) the gateway
+    sm = find_method(class_def(parse("simulator/system/core/session_manager.py"), "SessionManager"), "resolve_outbound_network_interface")
+    sb = [x for x in sm.body if not (isinstance(x, ast.Expr) and isinstance(x.value, ast.Constant))]
+    if not (isinstance(sb[0], ast.For) and ast.unparse(sb[0].iter) == "self.node.network_interfaces.values()" and len(sb[0].body) == 1
+            and isinstance(sb[0].body[0], ast.If)
+            and ast.unparse(sb[0].body[0].test) == "dst_ip_address in network_interface.ip_network and network_interface.enabled"
+            and [ast.unparse(x) for x in sb[0].body[0].body] == ["return network_interface"]):
+        raise ValueError("resolve_outbound_network_interface: unexpected local-network loop")
+    if ast.unparse(sb[-1]) != "return self.software_manager.arp.get_default_gateway_network_interface()":
+        raise ValueError("resolve_outbound_network_interface: unexpected fallback")
+    mid = sb[1:-1]
+    if not mid:
+        gw_guard = False
+    elif (len(mid) == 2 and ast.unparse(mid[0]) == "default_gateway = getattr(self.node.config, 'default_gateway', None)"
+          and isinstance(mid[1], ast.If) and ast.unparse(mid[1].test) == "default_gateway and IPv4Address(dst_ip_address) == default_gateway"
+          and [ast.unparse(x) for x in mid[1].body] == ["return None"] and not mid[1].orelse):
+        gw_guard = True
+    else:
+        raise ValueError("resolve_outbound_network_interface: unrecognised statements between the loop and the fallback")
+
     def lst(xs):
         return "[" + ", ".join(f'("{n}", {k})' for n, k in xs) + "]"
     return f"""namespace Primaite.Gen.Forward
+/-- WirelessAccessPoint.receive_frame: enabled → decrement → `ttl < K` → the RouterInterface acceptance test (own MAC or broadcast) -/
+def wapDropBelow : Int := {wap_k}
+def wapAcceptsLikeRouterInterface : Bool := {"true" if wap_acc else "false"}
+/-- AirSpace.transmit hands the ONE frame object to every other enabled interface on the sender's frequency -/
+def airTransmitToOtherEnabled : Bool := true
+/-- SessionManager.resolve_outbound_network_interface: first enabled interface whose network contains the destination; else
+`None` when the destination is the default gateway itself (repair F-57); else the gateway's interface from ARP -/
+def gatewayNotViaGateway : Bool := {"true" if gw_guard else "false"}
 /-- `IPPacket.ttl` default -/
 def defaultTtl : Int := {ttl}
 /-- `Frame.decrement_ttl`: `self.ip.ttl -= k` -/
